@@ -14,6 +14,7 @@ vars == <<l, failed>>
 Min(a, b) == IF a < b THEN a ELSE b
 Paired(ls) == SelectSeq(ls, LAMBDA x : x.p)
 \* pairing of a line is visible only if some character carries the plain / non-emph / emph style
+Visible(x) == \E k \in DOMAIN x.e : x.e[k] # 2
 NonEmpty(ls) == \A i \in DOMAIN ls : \E k \in DOMAIN ls[i].e : ls[i].e[k] # 2
 
 Why(e) ==
@@ -35,10 +36,9 @@ Why(e) ==
        THEN "emph-on-identical"
   ELSE IF Len(ms) = 1 /\ Len(ps) = 1 /\ ~SingleRun(e.re, ms[1], ps[1]) THEN "single-run"
   \* threshold 1: i-th with i-th
-  ELSE IF e.thr = 100 /\ NonEmpty(ms) /\ NonEmpty(ps) /\
-          \E i \in DOMAIN ms : ms[i].p # (i <= Min(Len(ms), Len(ps))) THEN "dist1-minus"
-  ELSE IF e.thr = 100 /\ NonEmpty(ms) /\ NonEmpty(ps) /\
-          \E i \in DOMAIN ps : ps[i].p # (i <= Min(Len(ms), Len(ps))) THEN "dist1-plus"
+  \* (a line whose pairing cannot be seen - empty, or only whitespace-error characters - is skipped)
+  ELSE IF e.thr = 100 /\ \E i \in DOMAIN ms : Visible(ms[i]) /\ ms[i].p # (i <= Min(Len(ms), Len(ps))) THEN "dist1-minus"
+  ELSE IF e.thr = 100 /\ \E i \in DOMAIN ps : Visible(ps[i]) /\ ps[i].p # (i <= Min(Len(ms), Len(ps))) THEN "dist1-plus"
   \* threshold 0: only lines that differ in nothing but whitespace are paired
   ELSE IF e.thr = 0 /\ Len(pm) = Len(pp) /\ \E k \in DOMAIN pm : NoSpace(pm[k].t) # NoSpace(pp[k].t) THEN "dist0"
   \* what shares a row in side-by-side view is what is shown as paired in unified view
